@@ -48,12 +48,14 @@ type wkT struct {
 	Pad    string `json:"pad"`
 	Body   string `json:"body"`
 	Target nameT  `json:"target"`
+	Redir  string `json:"redir"` // none | loop | ok
 }
 
 type srvRec struct {
 	T    string `json:"t"`
 	Port int    `json:"port"`
 	Prio int    `json:"prio"`
+	TB   int    `json:"tb"`
 }
 
 type srvAns struct {
@@ -85,11 +87,11 @@ type resolveRec struct {
 		D []string `json:"d"`
 	} `json:"spell"`
 	LWK struct {
-		OK   bool  `json:"ok"`
-		Addr nameT `json:"addr"`
+		OKAny []bool `json:"ok_any"` // honoured? (both values where the latitude leaves it open)
+		Addr  nameT  `json:"addr"`
 	} `json:"lwk"`
 	Cache  *cacheT `json:"cache"`
-	Expect struct {
+	Expect []struct {
 		Kind string `json:"kind"`
 		Secs int64  `json:"secs"`
 	} `json:"expect"`
@@ -103,6 +105,9 @@ type cacheT struct {
 }
 
 const wkMax = 50 * 1024
+
+// noPort mirrors NoPort of Resolve.tla ("the name carries no port"; 0 is a port).
+const noPort = -1
 
 // conc concretises the abstract tokens of one record.
 type conc struct {
@@ -133,8 +138,14 @@ func newConc(i int, seed int64) *conc {
 	}
 	c.hosts["L6"] = v6(0x48)
 	c.hosts["DL6"] = v6(0x49)
+	c.hosts["L6M"] = fmt.Sprintf("::ffff:10.%d.%d.%d", hi, mid, lo) // IPv4-mapped, valid in brackets only
+	c.hosts["DL6M"] = fmt.Sprintf("::ffff:11.%d.%d.%d", hi, mid, lo)
+	// the same DNS names in other spellings
+	c.hosts["SU"] = strings.ToUpper(c.hosts["S"])
+	c.hosts["DU"] = strings.ToUpper(c.hosts["D"])
+	c.hosts["Ddot"] = c.hosts["D"] + "."
 	zones.Store(c.label, c.z)
-	for _, t := range []string{"L4", "DL4", "L6", "DL6"} {
+	for _, t := range litToks {
 		zones.Store(strings.ToLower(c.hosts[t]), c.z)
 	}
 	return c
@@ -142,7 +153,7 @@ func newConc(i int, seed int64) *conc {
 
 func (c *conc) done() {
 	zones.Delete(c.label)
-	for _, t := range []string{"L4", "DL4", "L6", "DL6"} {
+	for _, t := range litToks {
 		zones.Delete(strings.ToLower(c.hosts[t]))
 	}
 }
@@ -205,17 +216,22 @@ func (c *conc) port(tok int) int {
 	return tok
 }
 
-func isV6Tok(tok string) bool { return tok == "L6" || tok == "DL6" }
+var litToks = []string{"L4", "DL4", "L6", "DL6", "L6M", "DL6M"}
+
+func isV6Tok(tok string) bool { return tok == "L6" || tok == "DL6" || tok == "L6M" || tok == "DL6M" }
 func isLitTok(tok string) bool {
-	return tok == "L4" || tok == "DL4" || tok == "L6" || tok == "DL6"
+	return tok == "L4" || tok == "DL4" || isV6Tok(tok)
 }
+
+// ownablePort: a port token the harness can realise by a listener of its own (not 0, 1, 8448, 65535)
+func ownablePort(p int) bool { return p >= 4000 && p < 5000 }
 
 func (c *conc) hp(h string, p int) string {
 	s := c.host(h)
 	if isV6Tok(h) {
 		s = "[" + s + "]"
 	}
-	if p != 0 {
+	if p != noPort {
 		s += ":" + strconv.Itoa(c.port(p))
 	}
 	return s
@@ -252,6 +268,9 @@ func (c *conc) abstract(s string) string {
 		return l[a].k < l[b].k
 	})
 	for _, e := range l {
+		s = strings.ReplaceAll(s, e.k, e.v)
+	}
+	for _, e := range l {
 		s = regexp.MustCompile("(?i)"+regexp.QuoteMeta(e.k)).ReplaceAllLiteralString(s, e.v)
 	}
 	return s
@@ -275,8 +294,11 @@ func (c *conc) wkBody(w wkT) []byte {
 	switch w.Body {
 	case "ok":
 		v, _ := json.Marshal(c.name(w.Target))
-		js = pick(`{"m.server":%s}`, `{"m.server": %s, "other": {"m.server": "x.invalid"}}`, "{\n  \"a\": [1, 2],\n  \"m.server\": %s\n}")
-		js = fmt.Sprintf(js, v)
+		// @V@: the name as a JSON string; @E@: the same string with its first '.' written as an escape
+		js = pick(`{"m.server":@V@}`, `{"m.server": @V@, "other": {"m.server": "x.invalid"}}`, "{\n  \"a\": [1, 2],\n  \"m.server\": @V@\n}",
+			`{"other": {"m.server": "x.invalid"}, "m.server":@V@}`, `{"m.server":@E@}`)
+		js = strings.Replace(js, "@E@", strings.Replace(string(v), ".", `\u002e`, 1), 1)
+		js = strings.Replace(js, "@V@", string(v), 1)
 	case "malformed":
 		js = pick(`{"m.server":"d.`+c.label+`.c16.test"`, `not json`, `{"m.server":"d.`+c.label+`.c16.test"}}`, `<html></html>`)
 	case "no_mserver":
@@ -322,7 +344,9 @@ func (c *conc) setSRV(host string, svc string, a srvAns, rot int) {
 	case "nodata":
 		c.z.setDNS(q, "SRV", dnsAns{})
 	case "err":
-		c.z.setDNS(q, "SRV", dnsAns{rcode: dns.RcodeServerFailure})
+		// an answer that is an error but not "no such name": SERVFAIL / REFUSED / NOTIMP (all immediate)
+		rc := []int{dns.RcodeServerFailure, dns.RcodeRefused, dns.RcodeNotImplemented}[int((c.seed+int64(c.i))%3+3)%3]
+		c.z.setDNS(q, "SRV", dnsAns{rcode: rc})
 	case "ok":
 		var rrs []dns.RR
 		n := len(a.Recs)
@@ -350,7 +374,14 @@ func nameClass(n nameT) string {
 		return "none"
 	}
 	s := map[string]string{"no": "dns", "v4": "v4", "v6": "v6"}[n.Lit]
-	if n.Port != 0 {
+	switch n.Host { // other spellings / coincidences are classes of their own
+	case "SU", "DU", "Ddot", "L6M", "DL6M":
+		s += "(" + n.Host + ")"
+	}
+	switch {
+	case n.Port == 0 || n.Port == 65535:
+		s += "+port" + strconv.Itoa(n.Port)
+	case n.Port != noPort:
 		s += "+port"
 	}
 	return s
@@ -365,6 +396,9 @@ func wkClass(w wkT) string {
 	if !w.CL {
 		cl = "nocl"
 	}
+	if w.Redir != "none" {
+		st += "-redirect-" + w.Redir
+	}
 	s := st + "/" + w.Size + "/" + cl
 	if w.Pad != "none" {
 		s += "/pad-" + w.Pad
@@ -372,11 +406,23 @@ func wkClass(w wkT) string {
 	s += "/" + w.Body
 	if w.Body == "ok" {
 		s += "->" + nameClass(w.Target)
+		if w.Target.Host == "S" {
+			s += "(=origin)"
+		}
 	}
 	return s
 }
 
 func ansClass(a srvAns) string {
+	if a.RC == "ok" && len(a.Recs) == 1 && !strings.HasPrefix(a.Recs[0].T, "T_") {
+		return "self"
+	}
+	if a.RC == "ok" && len(a.Recs) == 3 && a.Recs[1].Prio == a.Recs[2].Prio {
+		return "tie"
+	}
+	if a.RC == "ok" && len(a.Recs) == 2 {
+		return "edge"
+	}
 	if a.RC == "ok" {
 		return strconv.Itoa(len(a.Recs)) + "rec"
 	}
@@ -384,11 +430,22 @@ func ansClass(a srvAns) string {
 }
 
 func srvClass(r resolveRec) string {
-	o, d := r.Srv["origin"], r.Srv["deleg"]
+	o, d := r.Srv["S"], r.Srv["D"]
 	return fmt.Sprintf("o:%s,%s|d:%s,%s", ansClass(o.Fed), ansClass(o.Legacy), ansClass(d.Fed), ansClass(d.Legacy))
 }
 
-func plain(n nameT) bool { return n.Valid && n.Lit == "no" && n.Port == 0 }
+// DnsKeyOf mirrors DnsKey of Resolve.tla: spellings of one DNS name.
+func DnsKeyOf(tok string) string {
+	switch tok {
+	case "S", "SU":
+		return "S"
+	case "D", "DU", "Ddot":
+		return "D"
+	}
+	return tok
+}
+
+func plain(n nameT) bool { return n.Valid && n.Lit == "no" && n.Port == noPort }
 
 // ---- the replay ------------------------------------------------------------------
 
@@ -428,8 +485,17 @@ func resolveReplay(seed int64) func(i int, raw json.RawMessage) hx.Result {
 				trip = false
 			}
 			for _, t := range v.Result {
-				if t.Dest.P == 8448 || isV6Tok(t.Dest.H) {
+				if !ownablePort(t.Dest.P) || isV6Tok(t.Dest.H) {
 					trip = false
+				}
+			}
+		}
+		for _, role := range []string{"S", "D"} {
+			for _, a := range []srvAns{r.Srv[role].Fed, r.Srv[role].Legacy} {
+				for k := 1; k < len(a.Recs); k++ {
+					if a.Recs[k].Prio == a.Recs[k-1].Prio {
+						trip = false // equal priorities: every resolution may order them differently
+					}
 				}
 			}
 		}
@@ -442,7 +508,7 @@ func resolveReplay(seed int64) func(i int, raw json.RawMessage) hx.Result {
 		dead := map[int]bool{}
 		if trip {
 			open := func(tok int, hostTok string) {
-				if tok == 0 || tok == 8448 || c.ports[tok] != 0 {
+				if !ownablePort(tok) || c.ports[tok] != 0 {
 					return
 				}
 				ip := "127.0.0.1"
@@ -450,7 +516,7 @@ func resolveReplay(seed int64) func(i int, raw json.RawMessage) hx.Result {
 					ip = c.host(hostTok)
 				}
 				s, err := newTLSSrv(ip, func(sni, host string) bool {
-					c.z.logf(&c.z.events, "(:p%d host=%s sni=%s)", tok, c.abstract(host), c.abstract(sni))
+					c.z.logf(&c.z.events, "(:p%d host=%s sni=%s)", tok, host, strings.ToLower(sni))
 					c.z.mu.Lock()
 					defer c.z.mu.Unlock()
 					return !dead[tok]
@@ -463,7 +529,7 @@ func resolveReplay(seed int64) func(i int, raw json.RawMessage) hx.Result {
 			}
 			open(r.Origin.Port, r.Origin.Host)
 			open(r.WK.Target.Port, r.WK.Target.Host)
-			for _, role := range []string{"origin", "deleg"} {
+			for _, role := range []string{"S", "D"} {
 				for _, a := range []srvAns{r.Srv[role].Fed, r.Srv[role].Legacy} {
 					for _, rec := range a.Recs {
 						open(rec.Port, rec.T)
@@ -474,20 +540,43 @@ func resolveReplay(seed int64) func(i int, raw json.RawMessage) hx.Result {
 
 		// -- environment
 		origin := c.name(r.Origin)
-		if plain(r.Origin) || r.Origin.Valid {
-			st := &wkStub{status: r.WK.Status, cl: r.WK.CL}
+		redirHost := ""
+		if r.Origin.Valid {
+			oh := strings.ToLower(c.host(r.Origin.Host))
+			st := &wkStub{status: r.WK.Status, cl: r.WK.CL, header: http.Header{}}
+			// a header that must have no effect
+			switch int((seed+int64(i))%3+3) % 3 {
+			case 1:
+				st.header.Set("Content-Type", "text/plain; charset=utf-8")
+			case 2:
+				st.header["Content-Type"] = nil
+			}
 			if r.WK.Status != 0 {
 				st.body = c.wkBody(r.WK)
 			}
-			c.z.wk[strings.ToLower(c.host(r.Origin.Host))] = st
+			switch r.WK.Redir {
+			case "none":
+				c.z.wk[oh] = st
+			case "loop":
+				c.z.wk[oh] = &wkStub{status: r.WK.Status, cl: true, body: []byte("moved"),
+					header: http.Header{"Location": {"https://" + c.name(r.Origin) + "/.well-known/matrix/server"}}}
+			case "ok": // the origin redirects to another host of the scenario, which serves the document with 200
+				redirHost = "redirect." + c.label + ".c16.test"
+				c.z.wk[oh] = &wkStub{status: r.WK.Status, cl: true, body: []byte("moved"),
+					header: http.Header{"Location": {"https://" + redirHost + "/.well-known/matrix/server"}}}
+				st.status = 200
+				c.z.wk[redirHost] = st
+			default:
+				panic("unknown redirect kind " + r.WK.Redir)
+			}
 		}
-		if r.WK.Target.Valid {
+		if r.WK.Target.Valid && DnsKeyOf(r.WK.Target.Host) != DnsKeyOf(r.Origin.Host) {
 			// the delegated host would itself delegate further, to a name that resolves nowhere
-			c.z.wk[strings.ToLower(c.host(r.WK.Target.Host))] = &wkStub{status: 200, cl: true,
+			c.z.wk[strings.ToLower(c.host(DnsKeyOf(r.WK.Target.Host)))] = &wkStub{status: 200, cl: true,
 				body: []byte(`{"m.server":"second-hop.` + c.label + `.c16.test:4499"}`)}
 		}
 		rot := int((seed + int64(i)) % 3)
-		for role, tok := range map[string]string{"origin": "S", "deleg": "D"} {
+		for role, tok := range map[string]string{"S": "S", "D": "D"} {
 			c.setSRV(c.host(tok), "matrix-fed", r.Srv[role].Fed, rot)
 			c.setSRV(c.host(tok), "matrix", r.Srv[role].Legacy, rot)
 			for _, a := range []srvAns{r.Srv[role].Fed, r.Srv[role].Legacy} {
@@ -562,11 +651,21 @@ func resolveReplay(seed int64) func(i int, raw json.RawMessage) hx.Result {
 				Want: wants, Got: gots}
 		}
 		// well-known requests: never to another host than the origin, never for literals / explicit ports
+		// (a redirect makes more requests: to the origin again, or to the host it names - never to the delegated name)
 		var wantWK []string
 		for _, h := range r.Allowed[match].WKReqs {
 			wantWK = append(wantWK, c.host(h))
 		}
-		if fmt.Sprint(wkLog) != fmt.Sprint(wantWK) {
+		wkOK := fmt.Sprint(wkLog) == fmt.Sprint(wantWK)
+		if !wkOK && r.WK.Redir != "none" && len(wantWK) == 1 && len(wkLog) >= 1 && wkLog[0] == wantWK[0] {
+			wkOK = true
+			for _, h := range wkLog[1:] {
+				if h != wantWK[0] && h != redirHost {
+					wkOK = false
+				}
+			}
+		}
+		if !wkOK {
 			return hx.Result{OK: false, Key: base + "/wellknown-requests",
 				What: fmt.Sprintf("ResolveServer: %s: well-known requests made to %q, the model prescribes %q", describe(), wkLog, wantWK),
 				Want: wantWK, Got: wkLog}
@@ -584,11 +683,15 @@ func resolveReplay(seed int64) func(i int, raw json.RawMessage) hx.Result {
 			wres, werr := fclient.LookupWellKnown(ctx, spec.ServerName(origin))
 			c.z.take(&c.z.wkLog)
 			gotOK := werr == nil && wres != nil
-			if gotOK != r.LWK.OK {
+			okAllowed := false
+			for _, b := range r.LWK.OKAny {
+				okAllowed = okAllowed || b == gotOK
+			}
+			if !okAllowed {
 				return hx.Result{OK: false, Key: "C16/wellknown/" + wc + "/honoured=" + strconv.FormatBool(gotOK),
 					What: fmt.Sprintf("LookupWellKnown(%q): reply %s (%d bytes): model honoured=%v, code honoured=%v (err=%v)",
-						origin, wc, len(c.z.wk[strings.ToLower(c.host(r.Origin.Host))].body), r.LWK.OK, gotOK, werr),
-					Want: r.LWK.OK, Got: gotOK}
+						origin, wc, len(c.z.wk[strings.ToLower(c.host(r.Origin.Host))].body), r.LWK.OKAny, gotOK, werr),
+					Want: r.LWK.OKAny, Got: gotOK}
 			}
 			if gotOK && string(wres.NewAddress) != c.name(r.LWK.Addr) {
 				return hx.Result{OK: false, Key: "C16/wellknown/" + wc + "/address",
@@ -608,41 +711,68 @@ func resolveReplay(seed int64) func(i int, raw json.RawMessage) hx.Result {
 		if trip {
 			v := r.Allowed[match]
 			c.z.mu.Lock()
-			for k, t := range v.Result {
-				dead[t.Dest.P] = k < len(v.Result)-1
+			for _, t := range v.Result {
+				dead[t.Dest.P] = true
 			}
 			c.z.mu.Unlock()
 			var want []string
 			for _, t := range v.Result {
-				sni := t.SNI
-				if isLitTok(sni) {
+				sni := strings.TrimSuffix(strings.ToLower(c.host(t.SNI)), ".") // SNI: no trailing dot (RFC 6066), case-insensitive
+				if isLitTok(t.SNI) {
 					sni = "" // no SNI is sent for an IP literal (RFC 6066)
 				}
-				want = append(want, fmt.Sprintf("(:p%d host=%s sni=%s)", t.Dest.P, c.abstract(c.hp(t.Host.H, t.Host.P)), sni))
+				want = append(want, fmt.Sprintf("(:p%d host=%s sni=%s)", t.Dest.P, c.hp(t.Host.H, t.Host.P), sni))
 			}
+			// the same client is used twice: the second request finds the resolution cached in the tripper
 			cl := fclient.NewClient(fclient.WithWellKnownSRVLookups(true), fclient.WithSkipVerify(true), fclient.WithTimeout(reqTimeout))
-			req, err := http.NewRequest("GET", "matrix://"+origin+"/_matrix/federation/v1/version", nil)
-			if err != nil {
-				panic(err)
-			}
-			t0 := time.Now()
-			resp, err := cl.DoHTTPRequest(ctx, req)
-			if err != nil && time.Since(t0) >= reqTimeout {
-				noteHang("C16/resolve/trip/request-hangs")
-			}
-			if resp != nil {
-				_ = resp.Body.Close()
+			// request 0 finds every target dead and must fail (having tried nothing but the prescribed targets, in
+			// order, any number of times); requests 1 and 2 find the last target alive: a failed call is followed
+			// by the same call, and then by a call that finds the resolution cached in the tripper
+			for round := 0; round <= 2; round++ {
+				if round == 1 {
+					c.z.mu.Lock()
+					for k, t := range v.Result {
+						dead[t.Dest.P] = k < len(v.Result)-1
+					}
+					c.z.mu.Unlock()
+				}
+				req, err := http.NewRequest("GET", "matrix://"+origin+"/_matrix/federation/v1/version", nil)
+				if err != nil {
+					panic(err)
+				}
+				t0 := time.Now()
+				resp, err := cl.DoHTTPRequest(ctx, req)
+				if err != nil && time.Since(t0) >= reqTimeout {
+					noteHang("C16/resolve/trip/request-hangs")
+				}
+				if resp != nil {
+					_ = resp.Body.Close()
+				}
+				ev := c.z.take(&c.z.events)
+				if round == 0 {
+					cyc := len(ev) > 0 && len(ev)%len(want) == 0
+					for k := range ev {
+						cyc = cyc && ev[k] == want[k%len(want)]
+					}
+					if err == nil || !cyc {
+						return hx.Result{OK: false, Key: base + "/trip/request-0",
+							What: fmt.Sprintf("Client request to %s with every target dead: the listeners saw %s (err=%v), the model prescribes a failure after walks over %s", describe(),
+								c.abstract(fmt.Sprint(ev)), err, c.abstract(fmt.Sprint(want))),
+							Want: want, Got: ev}
+					}
+					continue
+				}
+				if err != nil || fmt.Sprint(ev) != fmt.Sprint(want) {
+					return hx.Result{OK: false, Key: fmt.Sprintf("%s/trip/request-%d", base, round),
+						What: fmt.Sprintf("Client request %d to %s: the listeners saw %s (err=%v), the model prescribes %s", round, describe(),
+							c.abstract(fmt.Sprint(ev)), err, c.abstract(fmt.Sprint(want))),
+						Want: want, Got: ev}
+				}
 			}
 			for _, s := range srvs {
 				s.close()
 			}
 			srvs = nil
-			ev := c.z.take(&c.z.events)
-			if err != nil || fmt.Sprint(ev) != fmt.Sprint(want) {
-				return hx.Result{OK: false, Key: base + "/trip",
-					What: fmt.Sprintf("Client request to %s: the listeners saw %v (err=%v), the model prescribes %v", describe(), ev, err, want),
-					Want: want, Got: ev}
-			}
 			nt += "|trip"
 		}
 		return hx.Result{OK: true, NT: nt}
@@ -699,6 +829,8 @@ func cacheReplay(i int, seed int64, r resolveRec) hx.Result {
 		h.Set("Cache-Control", "max-age=abc")
 	case "other":
 		h.Set("Cache-Control", "no-cache, s-maxage="+n)
+	case "negative":
+		h.Set("Cache-Control", "max-age=-"+n)
 	default:
 		panic("unknown cc " + k.CC)
 	}
@@ -707,6 +839,8 @@ func cacheReplay(i int, seed int64, r resolveRec) hx.Result {
 	case "absent":
 	case "valid":
 		h.Set("Expires", time.Unix(t0+k.Off, 0).UTC().Format(http.TimeFormat))
+	case "past":
+		h.Set("Expires", time.Unix(t0-k.Off, 0).UTC().Format(http.TimeFormat))
 	case "garbage":
 		h.Set("Expires", []string{"soon", "0", "-1", "Thursday"}[int((seed+int64(i))%4+4)%4])
 	default:
@@ -723,22 +857,31 @@ func cacheReplay(i int, seed int64, r resolveRec) hx.Result {
 	if err != nil {
 		return hx.Result{OK: false, Key: key + "/error", What: "LookupWellKnown failed: " + err.Error()}
 	}
-	var lo, hi int64
-	switch r.Expect.Kind {
-	case "relative":
-		lo, hi = t0+r.Expect.Secs-2, t1+r.Expect.Secs+2
-	case "absolute":
-		lo, hi = t0+r.Expect.Secs-2, t0+r.Expect.Secs+2
-	case "none":
-		lo, hi = 0, 0
-	default:
-		panic("unknown expectation " + r.Expect.Kind)
+	ok, kinds := false, ""
+	var ranges [][2]int64
+	for _, e := range r.Expect { // more than one where the property leaves the reading open
+		var lo, hi int64
+		switch e.Kind {
+		case "relative":
+			lo, hi = t0+e.Secs-2, t1+e.Secs+2
+		case "absolute":
+			lo, hi = t0+e.Secs-2, t0+e.Secs+2
+		case "none":
+			lo, hi = 0, 0
+		default:
+			panic("unknown expectation " + e.Kind)
+		}
+		ranges = append(ranges, [2]int64{lo, hi})
+		kinds += fmt.Sprintf(" %s %d s", e.Kind, e.Secs)
+		if res.CacheExpiresAt >= lo && res.CacheExpiresAt <= hi {
+			ok = true
+		}
 	}
-	if res.CacheExpiresAt < lo || res.CacheExpiresAt > hi {
+	if !ok {
 		return hx.Result{OK: false, Key: key,
-			What: fmt.Sprintf("LookupWellKnown with headers %v at unix %d: CacheExpiresAt=%d (now%+d s), the model says %s %d s",
-				h, t0, res.CacheExpiresAt, res.CacheExpiresAt-t0, r.Expect.Kind, r.Expect.Secs),
-			Want: []int64{lo, hi}, Got: res.CacheExpiresAt}
+			What: fmt.Sprintf("LookupWellKnown with headers %v at unix %d: CacheExpiresAt=%d (now%+d s), the model says%s",
+				h, t0, res.CacheExpiresAt, res.CacheExpiresAt-t0, kinds),
+			Want: ranges, Got: res.CacheExpiresAt}
 	}
-	return hx.Result{OK: true, NT: fmt.Sprintf("cache|%s|%s|%s", k.CC, k.Ex, r.Expect.Kind)}
+	return hx.Result{OK: true, NT: fmt.Sprintf("cache|%s|%d|%s|%s", k.CC, k.N, k.Ex, r.Expect[0].Kind)}
 }
